@@ -60,7 +60,7 @@ def materialise(case, d):
             os.link(paths[f["target"]], p)
         else:
             with open(p, "wb") as fh:
-                fh.write(BODY[f["content"]])
+                fh.write(BODY[f["content"]] if f["content"] in BODY else f"int {f['content']};\n".encode())
             # identical timestamps, as after extracting an archive: equal size + equal mtime must
             # not be mistaken for equal content
             os.utime(p, (1_600_000_000, 1_600_000_000))
@@ -151,6 +151,9 @@ def run(ctx):
     gen = GEN_CFG.format(n=4 if q else 5, pool=tla_set(["", "a", "ab", "A"] if q else ["", "a", "ab", "A", "b"]),
                          kinds=tla_set(["reg", "sym", "hard", "excl", "nosrc"]), shard="@SHARD@", nshards="@NSHARDS@")
     cases = runner.sharded_tlc(ctx, "Duplicates", gen, 8, "GenDuplicates", timeout=3000)
+    big = core.tlc("Duplicates", "Duplicates_big.cfg", workers=1, timeout=600, tag="dupBig")
+    ctx.add_tlc("Duplicates BigSpec (24 contents x 2 copies in one code base)", big)
+    cases += [j for j in big.json if isinstance(j, dict) and "groups" in j]
     if not cases:
         raise core.MachineryError("no code bases generated")
     ctx.cov["rule"] = (
